@@ -106,7 +106,11 @@ class SyncTasks(Tasks):
 
         def schedule_save():
             """Save sensors and schedule a new save."""
-            save_sensors()
+            try:
+                save_sensors()
+            except Exception as exc:  # pylint: disable=broad-except
+                # Keep the schedule alive, the next save may succeed.
+                _LOGGER.error("Failed to save sensors: %s", exc)
             scheduler = threading.Timer(10.0, schedule_save)
             scheduler.start()
             self._cancel_save = scheduler.cancel
@@ -190,7 +194,11 @@ class AsyncTasks(Tasks):
             loop = asyncio.get_running_loop()
             while True:
                 try:
-                    await loop.run_in_executor(None, save_sensors)
+                    try:
+                        await loop.run_in_executor(None, save_sensors)
+                    except Exception as exc:  # pylint: disable=broad-except
+                        # Keep the schedule alive, the next save may succeed.
+                        _LOGGER.error("Failed to save sensors: %s", exc)
                     await asyncio.sleep(10.0)
                 except asyncio.CancelledError:
                     break
